@@ -566,6 +566,12 @@ def bor(x: Lin, y: Lin) -> Tuple[Lin, Optional[str]]:
     return x + y, None
 
 
+def _gcd(a: int, b: int) -> int:
+    while b:
+        a, b = b, a % b
+    return a
+
+
 def compare(x: Lin, op: str, y: Lin) -> Optional[bool]:
     """Decides x op y from the forms and ranges; None = not decided."""
     if not x.terms and not y.terms:
@@ -577,6 +583,12 @@ def compare(x: Lin, op: str, y: Lin) -> Optional[bool]:
         if d.is_const():
             return d.const == 0
         if (lo is not None and lo > 0) or (hi is not None and hi < 0):
+            return False
+        # congruence: all coefficients share a factor that does not divide the constant
+        g = 0
+        for _, c in d.terms:
+            g = _gcd(g, abs(c))
+        if g > 1 and d.const % g != 0:
             return False
         return None
     if op == "!=":
